@@ -417,21 +417,25 @@ Qed.
 
 Lemma method_ok d s m : validate_method d s m = [] ->
   (forall q n, In q (effective_reqs d s m) -> In n (q_scopes q) -> resolves (RScope d q n)) /\
-  (forall v vs, r_fixed (m_result m) = Some v -> r_views (m_result m) = Some vs -> resolves (RView m v)) /\
   (forall q n c, In q (effective_reqs d s m) -> In n (q_schemes q) -> In c (needed d n) -> resolves (RCred m c)).
 Proof.
-  unfold validate_method. intro H. apply app_nil_both in H. destruct H as [Hc H].
-  apply app_nil_both in H. destruct H as [Hs Hv]. split; [|split; [|exact (creds_ok d s m Hc)]].
-  - intros q n Hq Hn. assert (Hq' := flat_map_nil _ _ Hs q Hq). simpl in Hq'.
-    assert (Hf := map_filter_nil _ _ _ Hq' n Hn). apply negb_false_iff in Hf.
-    unfold scope_known in Hf. apply existsb_exists in Hf. destruct Hf as [sn [Hsn Hf]].
-    apply existsb_exists in Hf. destruct Hf as [sc [Hsc Hf]]. apply andb_true_iff in Hf. destruct Hf as [He Hm].
-    apply Nat.eqb_eq in He. simpl. exists sn, sc. repeat split; try assumption. apply mem_In. exact Hm.
-  - intros v vs Hfx Hvs. rewrite Hfx, Hvs in Hv. simpl. rewrite Hvs.
-    destruct (Nat.eqb v default_view) eqn:Ed; [left; apply Nat.eqb_eq; exact Ed|].
-    destruct (lookup_view vs v) as [w|] eqn:El; [|discriminate]. right.
-    unfold lookup_view in El. apply find_some_in in El. destruct El as [Hi He]. apply Nat.eqb_eq in He.
-    exists w. split; assumption.
+  unfold validate_method. intro H. apply app_nil_both in H. destruct H as [Hc Hs].
+  split; [|exact (creds_ok d s m Hc)].
+  intros q n Hq Hn. assert (Hq' := flat_map_nil _ _ Hs q Hq). simpl in Hq'.
+  assert (Hf := map_filter_nil _ _ _ Hq' n Hn). apply negb_false_iff in Hf.
+  unfold scope_known in Hf. apply existsb_exists in Hf. destruct Hf as [sn [Hsn Hf]].
+  apply existsb_exists in Hf. destruct Hf as [sc [Hsc Hf]]. apply andb_true_iff in Hf. destruct Hf as [He Hm].
+  apply Nat.eqb_eq in He. simpl. exists sn, sc. repeat split; try assumption. apply mem_In. exact Hm.
+Qed.
+
+Lemma attr_ok ats n a v : attr_errors ats n = [] -> nth_error ats n = Some a -> a_view a = Some v ->
+  resolves (RAttrView ats n v).
+Proof.
+  unfold attr_errors. intros H Ha Hv. rewrite Ha, Hv in H. apply app_nil_both in H. destruct H as [H _].
+  destruct (a_rtviews a) as [vs|] eqn:Er; [|discriminate].
+  destruct (Nat.eqb v default_view || mem v vs) eqn:E; [|discriminate].
+  simpl. exists a, vs. repeat split; try assumption.
+  apply orb_true_iff in E. destruct E as [E|E]; [left; apply Nat.eqb_eq; exact E|right; apply mem_In; exact E].
 Qed.
 
 Lemma rtype_ok t : dsl_errors_rtype t = [] ->
@@ -455,7 +459,8 @@ Theorem refs_resolve d : validate d = [] -> forall r, In r (refs d) -> is_tag r 
 Proof.
   intros Hv r Hin Htag. apply validate_nil in Hv. destruct Hv as [Hd Hv].
   unfold dsl_errors in Hd. apply app_nil_both in Hd. destruct Hd as [Hdq Hd]. apply app_nil_both in Hd. destruct Hd as [Hdt Hds].
-  unfold validation_errors in Hv. apply app_nil_both in Hv. destruct Hv as [Hve Hv]. apply app_nil_both in Hv. destruct Hv as [Hvs Hvr].
+  unfold validation_errors in Hv. apply app_nil_both in Hv. destruct Hv as [Hve Hv]. apply app_nil_both in Hv. destruct Hv as [Hvs Hv].
+  apply app_nil_both in Hv. destruct Hv as [Hvr Hva].
   unfold refs in Hin.
   apply in_app_or in Hin. destruct Hin as [Hin|Hin].
   { apply in_flat_map in Hin. destruct Hin as [q [Hq Hin]]. exact (req_schemes_ok d q (flat_map_nil _ _ Hdq q Hq) r Hin). }
@@ -475,7 +480,7 @@ Proof.
     apply in_flat_map in Hin. destruct Hin as [m [Hm Hin]].
     assert (Hdm := flat_map_nil _ _ Hsm m Hm). simpl in Hdm. apply app_nil_both in Hdm. destruct Hdm as [Hmq Hmh].
     assert (Hvm' := flat_map_nil _ _ Hvm m Hm). simpl in Hvm'. apply app_nil_both in Hvm'. destruct Hvm' as [Hmm Hmhv].
-    destruct (method_ok d s m Hmm) as [Hscope [Hview Hcred]].
+    destruct (method_ok d s m Hmm) as [Hscope Hcred].
     apply in_app_or in Hin. destruct Hin as [Hin|Hin].
     { apply in_flat_map in Hin. destruct Hin as [q [Hq Hin]]. exact (req_schemes_ok d q (flat_map_nil _ _ Hmq q Hq) r Hin). }
     apply in_app_or in Hin. destruct Hin as [Hin|Hin].
@@ -483,20 +488,96 @@ Proof.
     apply in_app_or in Hin. destruct Hin as [Hin|Hin].
     { apply in_flat_map in Hin. destruct Hin as [q [Hq Hin]]. apply in_flat_map in Hin. destruct Hin as [n [Hn Hin]].
       apply in_map_iff in Hin. destruct Hin as [c [<- Hc]]. exact (Hcred q n c Hq Hn Hc). }
-    apply in_app_or in Hin. destruct Hin as [Hin|Hin].
-    { destruct (r_fixed (m_result m)) as [v|] eqn:Ef; [|contradiction].
-      destruct (r_views (m_result m)) as [vs|] eqn:Evs; [|contradiction].
-      destruct Hin as [<-|[]]. exact (Hview v vs eq_refl eq_refl). }
     destruct (m_http m) as [h|]; [|contradiction].
     exact (http_ok d s m h Hmh Hmhv r Hin Htag).
-  - apply in_flat_map in Hin. destruct Hin as [n [Hn Hin]].
-    destruct (get (d_graph d) n) as [nd|] eqn:Eg; [|contradiction].
-    destruct (n_kind nd) as [| | |fs] eqn:Ek; try contradiction.
-    apply in_map_iff in Hin. destruct Hin as [x [<- Hx]].
-    destruct (required_errors (d_graph d) (d_roots d)) as [ns|] eqn:Er; [|discriminate].
-    apply map_nil in Hvr. subst ns.
-    exact (required_ok _ _ Er n nd x Hn Eg (ex_intro _ fs Ek) Hx).
+  - apply in_app_or in Hin. destruct Hin as [Hin|Hin].
+    + apply in_flat_map in Hin. destruct Hin as [n [Hn Hin]].
+      destruct (get (d_graph d) n) as [nd|] eqn:Eg; [|contradiction].
+      destruct (n_kind nd) as [| | |fs] eqn:Ek; try contradiction.
+      apply in_map_iff in Hin. destruct Hin as [x [<- Hx]].
+      destruct (required_errors (d_graph d) (d_roots d)) as [ns|] eqn:Er; [|discriminate].
+      apply map_nil in Hvr. subst ns.
+      exact (required_ok _ _ Er n nd x Hn Eg (ex_intro _ fs Ek) Hx).
+    + apply in_flat_map in Hin. destruct Hin as [n [Hn Hin]].
+      destruct (nth_error (d_attrs d) n) as [a|] eqn:Ea; [|contradiction].
+      destruct (a_view a) as [v|] eqn:Ev; [|contradiction]. destruct Hin as [<-|[]].
+      exact (attr_ok _ n a v (flat_map_nil _ _ Hva n Hn) Ea Ev).
 Qed.
+
+(* ---- every attribute reachable from the roots is visited (and so checked) ---- *)
+
+Inductive reach (children : nat -> list nat) (roots : list nat) : nat -> Prop :=
+| reach_root r : In r roots -> reach children roots r
+| reach_child x c : reach children roots x -> In c (children x) -> reach children roots c.
+
+Lemma walk_closed children : forall fuel vis n v,
+  walk children fuel vis n = Some v ->
+  In n v /\ incl vis v /\ (forall x, In x v -> In x vis \/ (forall c, In c (children x) -> In c v)).
+Proof.
+  induction fuel as [|f IH]; intros vis n v H; [discriminate|].
+  simpl in H. destruct (mem n vis) eqn:Em.
+  - inversion H; subst v. split; [apply mem_In; exact Em|]. split; [apply incl_refl|]. intros x Hx. left. exact Hx.
+  - assert (Hfold : forall cs v0 v1,
+      fold_left (fun acc c => match acc with None => None | Some v => walk children f v c end) cs (Some v0) = Some v1 ->
+      incl v0 v1 /\ (forall c, In c cs -> In c v1) /\
+      (forall x, In x v1 -> In x v0 \/ (forall c, In c (children x) -> In c v1))).
+    { induction cs as [|c cs IHcs]; intros v0 v1 Hf.
+      - simpl in Hf. inversion Hf; subst v1. split; [apply incl_refl|]. split; [intros c []|]. intros x Hx. left. exact Hx.
+      - simpl in Hf. destruct (walk children f v0 c) as [v0'|] eqn:Ew.
+        + destruct (IH v0 c v0' Ew) as [Hc [Hi Hcl]]. destruct (IHcs v0' v1 Hf) as [Hi2 [Hall Hcl2]].
+          split; [exact (incl_tran Hi Hi2)|]. split.
+          * intros c' [<-|Hc']; [apply Hi2; exact Hc|exact (Hall c' Hc')].
+          * intros x Hx. destruct (Hcl2 x Hx) as [Hx0|Hch]; [|right; exact Hch].
+            destruct (Hcl x Hx0) as [Hxv|Hch]; [left; exact Hxv|]. right. intros c' Hc'. apply Hi2. exact (Hch c' Hc').
+        + exfalso. clear -Hf. induction cs; simpl in Hf; [discriminate|auto]. }
+    destruct (Hfold (children n) (n :: vis) v H) as [Hi [Hall Hcl]].
+    split; [apply Hi; left; reflexivity|]. split; [intros x Hx; apply Hi; right; exact Hx|].
+    intros x Hx. destruct (Hcl x Hx) as [[<-|Hxv]|Hch]; [right; exact Hall|left; exact Hxv|right; exact Hch].
+Qed.
+
+Lemma walk_roots_closed children fuel : forall roots vis v,
+  walk_roots children fuel vis roots = Some v ->
+  incl vis v /\ (forall r, In r roots -> In r v) /\
+  (forall x, In x v -> In x vis \/ (forall c, In c (children x) -> In c v)).
+Proof.
+  induction roots as [|r rs IH]; intros vis v H; simpl in H.
+  - inversion H; subst v. split; [apply incl_refl|]. split; [intros r []|]. intros x Hx. left. exact Hx.
+  - destruct (walk children fuel vis r) as [v0|] eqn:Ew; [|discriminate].
+    destruct (walk_closed children fuel vis r v0 Ew) as [Hr [Hi Hcl]].
+    destruct (IH v0 v H) as [Hi2 [Hall Hcl2]].
+    split; [exact (incl_tran Hi Hi2)|]. split.
+    + intros r' [<-|Hr']; [apply Hi2; exact Hr|exact (Hall r' Hr')].
+    + intros x Hx. destruct (Hcl2 x Hx) as [Hx0|Hch]; [|right; exact Hch].
+      destruct (Hcl x Hx0) as [Hxv|Hch]; [left; exact Hxv|]. right. intros c Hc. apply Hi2. exact (Hch c Hc).
+Qed.
+
+Lemma reachable_complete g roots n : reach (validate_children g) roots n -> In n (reachable_nodes g roots).
+Proof.
+  unfold reachable_nodes, graph_fuel.
+  destruct (walk_roots_terminates (validate_children g) (List.length g) (validate_children_oor g) roots _ [] (unvis_any_lt _ []))
+    as [v [Hw _]]. rewrite Hw.
+  destruct (walk_roots_closed _ _ roots [] v Hw) as [_ [Hroots Hcl]].
+  induction 1 as [r Hr|x c Hx IHx Hc]; [exact (Hroots r Hr)|].
+  destruct (Hcl x IHx) as [[]|Hch]. exact (Hch c Hc).
+Qed.
+
+(* a memo keyed by the TYPE of the attribute skips every attribute but the first of a
+   result type: Result { first: RT; second: RT with View("nope") }, RT defines view 5 only.
+   nodes: 0 result, 1 first, 2 second, 3 RT's attribute, 4 a. names: first 1, second 2, a 3, nope 9 *)
+Definition twice_graph : graph :=
+  [ mkN (KObj [(1, 1); (2, 2)]) None [] [];
+    mkN (KObj [(3, 4)]) (Some 3) [] [];
+    mkN (KObj [(3, 4)]) (Some 3) [] [];
+    mkN (KObj [(3, 4)]) None [] [];
+    mkN KPrim None [] [] ].
+Definition twice_attrs : list nattr :=
+  [ mkA None None false; mkA None (Some [0; 5]) false; mkA (Some 9) (Some [0; 5]) false; mkA None None false; mkA None None false ].
+
+Lemma type_keyed_memo_skips :
+  flat_map (attr_errors twice_attrs) (visited_keyed (type_key twice_graph) twice_graph [0]) = [] /\
+  flat_map (attr_errors twice_attrs) (visited_keyed (fun n => n) twice_graph [0]) = [EView 9] /\
+  flat_map (attr_errors twice_attrs) (reachable_nodes twice_graph [0]) = [EView 9].
+Proof. repeat split; vm_compute; reflexivity. Qed.
 
 (* ---- the references that are NOT checked: concrete accepted designs ---- *)
 
@@ -505,7 +586,7 @@ Definition tag_method : method :=
   mkM SEmpty [] (mkR (SObj [1]) None None) [] []
       (Some (mkH [] [] [] [] BDefault None [mkRs (Some 2) [] [] BDefault; mkRs None [] [] BDefault] [])).
 Definition tag_design : design :=
-  mkD [] [] [] [] [] [mkS [] [] [] [tag_method]] [mkN (KObj [(1, 1)]) None [] []; mkN KPrim None [] []] [0].
+  mkD [] [] [] [] [] [mkS [] [] [] [tag_method]] [mkN (KObj [(1, 1)]) None [] []; mkN KPrim None [] []] [0] [].
 
 Lemma tag_design_accepted : validate tag_design = [].
 Proof. vm_compute. reflexivity. Qed.
@@ -528,7 +609,7 @@ Definition reqmap_graph : graph :=
     mkN (KObj [(2, 5)]) None [3] [];
     mkN KPrim None [] [] ].
 Definition reqmap_design : design :=
-  mkD [] [] [] [] [] [mkS [] [] [] [mkM (SObj [1]) [] (mkR SEmpty None None) [] [] None]] reqmap_graph [0].
+  mkD [] [] [] [] [] [mkS [] [] [] [mkM (SObj [1]) [] (mkR SEmpty None None) [] [] None]] reqmap_graph [0] [].
 
 Lemma reqmap_accepted : validate reqmap_design = [].
 Proof. vm_compute. reflexivity. Qed.
@@ -660,4 +741,14 @@ Proof.
     apply String.eqb_eq in Hname. split; [exact Hname|].
     unfold eval_call. rewrite (fkind_eqb_eq _ _ Hkind), Hname, (allowed_ext ea eb c Ht1 Ht2), (dtype_ok_ext ea eb c Hg1 Hg2). reflexivity.
   - exact (IH b Hr i ea eb c Ha Hb).
+Qed.
+
+Lemma reachable_attr_checked d : validate d = [] ->
+  forall n a v, reach (validate_children (d_graph d)) (d_roots d) n ->
+    nth_error (d_attrs d) n = Some a -> a_view a = Some v -> resolves (RAttrView (d_attrs d) n v).
+Proof.
+  intros Hv n a v Hr Ha Hview. apply validate_nil in Hv. destruct Hv as [_ Hv].
+  unfold validation_errors in Hv. apply app_nil_both in Hv. destruct Hv as [_ Hv]. apply app_nil_both in Hv. destruct Hv as [_ Hv].
+  apply app_nil_both in Hv. destruct Hv as [_ Hva].
+  exact (attr_ok _ n a v (flat_map_nil _ _ Hva n (reachable_complete _ _ n Hr)) Ha Hview).
 Qed.
